@@ -222,6 +222,8 @@ def expectedSites : List (String × String) := [
     "Det.topoSortWith; toposort_deterministic; op `topo`"),
   ("fnbody lang/ast/sort.go tssVisit #0 - 694be8a6bee8",
     "Det.tssVisit; toposort_deterministic; op `topo`"),
+  ("fnbody lang/token/list.go (QQID).LessThan #0 - d391c1dc0916",
+    "Det.qqidLess; qqidLess_eq_key_lt (it is `<` on the keys the site lemmas sort and maximise by); op `qqidlt`"),
   ("maprange lang/check/check.go Check #0 c.builtInInterfaceFuncs 907050bea1b1",
     "site_group_sort_perm_invariant (grouping; every group is sorted by the next loop)"),
   ("maprange lang/check/check.go Check #1 c.builtInInterfaces 1a82948dc2db",
